@@ -406,7 +406,17 @@ def rule_cancellation_surfaces(ctx: Ctx, out: Collector) -> None:
                 continue
             # does every path from the handler re-raise?
             ends = reach(g, [h.id], labels=('n', 'T', 'F', 'back'))
-            swallow = [m for m in ends if g.evs[m].kind in ('exit', 'ret', 'return') or g.evs[m].info.get('what') == 'after-try']
+            # the handler's own function goes on normally: it returns (or its inlined activation returns to the caller), falls
+            # out of the try statement, or the task root exits - returns of helpers called *inside* the handler are not that
+            def leaves_normally(e_) -> bool:
+                if e_.kind == 'exit':
+                    return True
+                if e_.kind == 'return':
+                    return e_.inst is h.inst
+                if e_.kind == 'ret':
+                    return e_.info.get('callee') is h.inst
+                return e_.info.get('what') == 'after-try' and e_.inst is h.inst
+            swallow = [m for m in ends if leaves_normally(g.evs[m])]
             if swallow:
                 out.bad('LK-5', cons, h.where(), f'a handler on the run path catches cancellation ({", ".join(names)}) and does '
                                                  f'not re-raise it on every path: cancelling the run does not surface as '
